@@ -108,7 +108,13 @@ func cmdVerify(args []string) {
 		}
 		fmt.Printf("%-50s obligations=%d ok=%d failed=%d vacuity=%s %.1fs maxquery=%dKB\n", u.Name, len(r.Obls), ok, bad, r.Vacuity, r.Secs, maxq/1024)
 		if len(r.DeadReturns) > 0 {
-			fmt.Printf("   WARNING unreachable return sites: %v of %d\n", r.DeadReturns, len(r.Ex.returnReach))
+			var ps []string
+			for _, i := range r.DeadReturns {
+				if i-1 < len(r.Ex.returnPos) {
+					ps = append(ps, r.Ex.returnPos[i-1])
+				}
+			}
+			fmt.Printf("   WARNING unreachable return sites: %v of %d %v\n", r.DeadReturns, len(r.Ex.returnReach), ps)
 		}
 		for _, ob := range r.Obls {
 			if !ob.ok() || *verbose {
